@@ -29,7 +29,7 @@ macro "inv_tac" : tactic => `(tactic| (
   obtain ⟨quit, dbOpen, hp, wp, sp, ap, nb, ntx, nt⟩ := s
   obtain ⟨i1, i2, i3, i4, i5, i6, i7, i8⟩ := h
   dsimp only at i1 i2 i3 i4 i5 i6 i7 i8
-  cases ap <;> rcases wp with _ | _ | _ | ⟨_|_|_|_⟩ | _ | _ | ⟨_|_⟩ | _ | _ | _ | ⟨_|_|_⟩ | _ | _ <;>
+  cases ap <;> rcases wp with _ | _ | _ | ⟨_|_|_|_⟩ | _ | _ | _ | ⟨_|_|_⟩ | _ | _ <;>
   simp [fire, susNext, susAbort, resNext] at hf <;>
     (first | (obtain ⟨hg, rfl⟩ := hf) | (subst hf)) <;>
     (constructor <;> intros <;> simp_all [window, inflight, bound] <;> omega)))
@@ -62,10 +62,8 @@ theorem inv_wSusQuit {sh : Shape} {c : Cfg} {s s' : St} (h : Inv sh c s)
     (hf : fire sh c (.wSusQuit) s = some s') (hc : c.busy < c.cap) : Inv sh c s' := by inv_tac
 theorem inv_wCommitI {sh : Shape} {c : Cfg} {o} {s s' : St} (h : Inv sh c s)
     (hf : fire sh c (.wCommitI o) s = some s') (hc : c.busy < c.cap) : Inv sh c s' := by inv_tac
-theorem inv_wCommitR1 {sh : Shape} {c : Cfg} {o} {s s' : St} (h : Inv sh c s)
-    (hf : fire sh c (.wCommitR1 o) s = some s') (hc : c.busy < c.cap) : Inv sh c s' := by inv_tac
-theorem inv_wCommitR2 {sh : Shape} {c : Cfg} {o} {s s' : St} (h : Inv sh c s)
-    (hf : fire sh c (.wCommitR2 o) s = some s') (hc : c.busy < c.cap) : Inv sh c s' := by inv_tac
+theorem inv_wCommitR {sh : Shape} {c : Cfg} {o} {s s' : St} (h : Inv sh c s)
+    (hf : fire sh c (.wCommitR o) s = some s') (hc : c.busy < c.cap) : Inv sh c s' := by inv_tac
 theorem inv_wResQuit {sh : Shape} {c : Cfg} {s s' : St} (h : Inv sh c s)
     (hf : fire sh c (.wResQuit) s = some s') (hc : c.busy < c.cap) : Inv sh c s' := by inv_tac
 theorem inv_wChkQuit {sh : Shape} {c : Cfg} {s s' : St} (h : Inv sh c s)
@@ -110,8 +108,7 @@ theorem inv_step {sh : Shape} {c : Cfg} (hc : c.busy < c.cap) {s s' : St} {l : L
   · exact inv_wTakeSkip h hf hc
   · exact inv_wSusQuit h hf hc
   · exact inv_wCommitI h hf hc
-  · exact inv_wCommitR1 h hf hc
-  · exact inv_wCommitR2 h hf hc
+  · exact inv_wCommitR h hf hc
   · exact inv_wResQuit h hf hc
   · exact inv_wChkQuit h hf hc
   · exact inv_wChkGo h hf hc
@@ -138,7 +135,7 @@ macro "meas_tac" : tactic => `(tactic| (
   obtain ⟨quit, dbOpen, hp, wp, sp, ap, nb, ntx, nt⟩ := s
   dsimp only at hq
   subst hq
-  rcases wp with _ | _ | _ | ⟨_|_|_|_⟩ | _ | _ | ⟨_|_⟩ | _ | _ | _ | ⟨_|_|_⟩ | _ | _ <;>
+  rcases wp with _ | _ | _ | ⟨_|_|_|_⟩ | _ | _ | _ | ⟨_|_|_⟩ | _ | _ <;>
   simp [fire, susNext, susAbort, resNext, Shape.fixed] at hf <;>
     (first | (obtain ⟨hg, rfl⟩ := hf) | (subst hf)) <;>
     (simp_all [stopMeasure, rankH, rankW, rankS, taskW] <;> omega)))
@@ -171,10 +168,8 @@ theorem meas_wSusQuit {c : Cfg} {s s' : St} (hq : s.quit = true)
     (hf : fire .fixed c (.wSusQuit) s = some s') : stopMeasure s' < stopMeasure s := by meas_tac
 theorem meas_wCommitI {c : Cfg} {o} {s s' : St} (hq : s.quit = true)
     (hf : fire .fixed c (.wCommitI o) s = some s') : stopMeasure s' < stopMeasure s := by meas_tac
-theorem meas_wCommitR1 {c : Cfg} {o} {s s' : St} (hq : s.quit = true)
-    (hf : fire .fixed c (.wCommitR1 o) s = some s') : stopMeasure s' < stopMeasure s := by meas_tac
-theorem meas_wCommitR2 {c : Cfg} {o} {s s' : St} (hq : s.quit = true)
-    (hf : fire .fixed c (.wCommitR2 o) s = some s') : stopMeasure s' < stopMeasure s := by meas_tac
+theorem meas_wCommitR {c : Cfg} {o} {s s' : St} (hq : s.quit = true)
+    (hf : fire .fixed c (.wCommitR o) s = some s') : stopMeasure s' < stopMeasure s := by meas_tac
 theorem meas_wResQuit {c : Cfg} {s s' : St} (hq : s.quit = true)
     (hf : fire .fixed c (.wResQuit) s = some s') : stopMeasure s' < stopMeasure s := by meas_tac
 theorem meas_wChkQuit {c : Cfg} {s s' : St} (hq : s.quit = true)
@@ -209,8 +204,7 @@ theorem measure_decreases {c : Cfg} {s s' : St} {l : Label} (hl : l.core = true)
   · exact meas_wTakeSkip hq hf
   · exact meas_wSusQuit hq hf
   · exact meas_wCommitI hq hf
-  · exact meas_wCommitR1 hq hf
-  · exact meas_wCommitR2 hq hf
+  · exact meas_wCommitR hq hf
   · exact meas_wResQuit hq hf
   · exact meas_wChkQuit hq hf
   · exact meas_wChkGo hq hf
@@ -229,7 +223,7 @@ theorem no_deadlock_of_inv {c : Cfg} {s : St} (h : Inv .fixed c s) :
   obtain ⟨quit, dbOpen, hp, wp, sp, ap, nb, ntx, nt⟩ := s
   obtain ⟨i1, i2, i3, i4, i5, i6, i7, i8⟩ := h
   dsimp only at i1 i2 i3 i4 i5 i6 i7 i8
-  rcases wp with _ | _ | _ | o | _ | _ | ok | _ | _ | _ | o | _ | _
+  rcases wp with _ | _ | _ | o | _ | _ | _ | o | _ | _
   · -- top
     cases quit
     · by_cases hnt : 0 < nt
@@ -264,29 +258,11 @@ theorem no_deadlock_of_inv {c : Cfg} {s : St} (h : Inv .fixed c s) :
         · simp_all
       cases o <;> en .res
     · cases o <;> en .wResQuit
-  · -- rem1Sus
-    cases quit
-    · cases hp
-      · en .sus
-      · simp_all [window, Shape.fixed]
-      · en .hDoneBlk
-      · en .hDoneTx
-      · simp_all
-    · en .wSusQuit
-  · en (.wCommitR1 true)
-  · -- rem1Res
-    cases quit
-    · have : hp = .wait := by
-        rcases i1 (by simp [window]) with h | h
-        · exact h
-        · simp_all
-      cases ok <;> en .res
-    · cases ok <;> en .wResQuit
-  · -- rem2Chk
+  · -- remChk
     cases quit
     · en .wChkGo
     · en .wChkQuit
-  · -- rem2Sus
+  · -- remSus
     cases quit
     · cases hp
       · en .sus
@@ -295,8 +271,8 @@ theorem no_deadlock_of_inv {c : Cfg} {s : St} (h : Inv .fixed c s) :
       · en .hDoneTx
       · simp_all
     · en .wSusQuit
-  · en (.wCommitR2 .finish)
-  · -- rem2Res
+  · en (.wCommitR .finish)
+  · -- remRes
     cases quit
     · have : hp = .wait := by
         rcases i1 (by simp [window]) with h | h
@@ -375,14 +351,14 @@ theorem path_bounded {c : Cfg} {s s' : St} {n : Nat} (hp : CorePath .fixed c s n
 -- ------------------------------------------------------------------ the skeleton before the D12 fix deadlocks
 
 def cfg4 : Cfg := { cap := 4, qcap := 1024, busy := 3 }
-/-- one removal queued; the worker has taken it and stands at suspend(); Stop has closed quit; the follower
+/-- one import queued; the worker has taken it and stands at suspend(); Stop has closed quit; the follower
     has seen quit and returned -/
-def stuck : St := { quit := true, hp := .done, wp := .rem1Sus, sp := .waiting, nt := 0 }
+def stuck : St := { quit := true, hp := .done, wp := .impSus, sp := .waiting, nt := 0 }
 
 theorem stuck_reachable : Reach .preFix cfg4 stuck := by
   have h0 : Reach .preFix cfg4 { nt := 1 } := .init (by simp [Init, cfg4])
-  have h1 : Reach .preFix cfg4 { wp := .rem1Sus, nt := 0 } := .step .wTakeRem h0 (by decide)
-  have h2 : Reach .preFix cfg4 { quit := true, wp := .rem1Sus, sp := .waiting, nt := 0 } := .step .eStop h1 (by decide)
+  have h1 : Reach .preFix cfg4 { wp := .impSus, nt := 0 } := .step .wTakeImp h0 (by decide)
+  have h2 : Reach .preFix cfg4 { quit := true, wp := .impSus, sp := .waiting, nt := 0 } := .step .eStop h1 (by decide)
   exact .step .hQuit h2 (by decide)
 
 theorem stuck_is_stuck : ¬ CoreEnabled .preFix cfg4 stuck ∧ ¬ Final stuck ∧ ¬ Quiescent stuck := by
@@ -421,7 +397,7 @@ theorem others_keep_followerWork {sh : Shape} {c : Cfg} {s s' : St} {l : Label} 
 theorem core_keeps_workerPending {sh : Shape} {c : Cfg} {s s' : St} {l : Label} (hl : l.core = true)
     (hf : fire sh c l s = some s') : workerPending s' ≤ workerPending s := by
   obtain ⟨quit, dbOpen, hp, wp, sp, ap, nb, ntx, nt⟩ := s
-  rcases wp with _ | _ | _ | ⟨_|_|_|_⟩ | _ | _ | ⟨_|_⟩ | _ | _ | _ | ⟨_|_|_⟩ | _ | _ <;>
+  rcases wp with _ | _ | _ | ⟨_|_|_|_⟩ | _ | _ | _ | ⟨_|_|_⟩ | _ | _ <;>
   cases l <;> simp [Label.core] at hl <;> simp [fire, susNext, susAbort, resNext] at hf <;>
     (first | (obtain ⟨hg, rfl⟩ := hf) | subst hf) <;> simp_all [workerPending, inflight] <;> omega
 
